@@ -141,9 +141,28 @@ func runC06(env *Env, rc *RunCtx) {
 	}
 	nOps := t.Range(4, 25)
 	h := fnv64("c06", 0)
+	// one run in twenty-five: tenant A writes a thousand or more relationships in
+	// one namespace and removes them again with ONE delete-by-query (sizes around
+	// which bulk maintenance would plausibly kick in); the other tenants' names,
+	// listings and checks must not notice
+	var bulkOps []Op
+	if t.Bool(1, 25) {
+		k := []int{999, 1000, 1001, 1500}[t.Choose(4)]
+		var ds []Delta
+		for i := 0; i < k; i++ {
+			ds = append(ds, Delta{Insert: true, T: Tuple{NS: "N0", Obj: fmt.Sprintf("bulk-%d", i), Rel: "r0", Sub: Subject{ID: "bulk-user"}}})
+		}
+		ns := "N0"
+		bulkOps = []Op{{Kind: "patch", Deltas: ds}, {Kind: []string{"delete-rest", "delete-grpc"}[t.Choose(2)], Q: &Query{NS: &ns}}}
+		nOps += 2
+		rc.Count("probe_bulk_write_and_delete_by_query_in_A", 1)
+	}
 	for i := 0; i < nOps; i++ {
 		var op Op
-		if t.Bool(1, 4) && nNets > 1 {
+		if len(bulkOps) > 0 && i >= 1 {
+			op, bulkOps = bulkOps[0], bulkOps[1:]
+		}
+		if op.Kind == "" && t.Bool(1, 4) && nNets > 1 {
 			// aim at data that exists only in another tenant
 			b := 1 + t.Choose(nNets-1)
 			if len(models[b].T) > 0 {
